@@ -816,4 +816,188 @@ theorem complete_aux : ∀ (f : Nat) (s b r : Bytes), rfcAux false f s = .ok b r
                       · simp [hcc] at h
         · simp [hac] at hst
 
+/-! ### segmentation independence -/
+
+theorem splitLF_append_some : ∀ (a l r x : Bytes), splitLF a = some (l, r) → splitLF (a ++ x) = some (l, r ++ x) := by
+  intro a
+  induction a with
+  | nil => intro l r x h; simp [splitLF] at h
+  | cons b t ih =>
+    intro l r x h
+    simp only [List.cons_append, splitLF] at h ⊢
+    by_cases hb : b.toNat = 10
+    · simp only [hb, if_true] at h ⊢
+      injection h with h; injection h with h1 h2
+      subst h1; subst h2; rfl
+    · simp only [hb, if_false] at h ⊢
+      cases hs : splitLF t with
+      | none => simp [hs] at h
+      | some q =>
+        obtain ⟨l', r'⟩ := q
+        simp only [hs] at h
+        injection h with h; injection h with h1 h2
+        subst h1; subst h2
+        rw [ih l' r' x hs]
+
+theorem splitLF_append_none : ∀ (a x : Bytes), splitLF a = none →
+    splitLF (a ++ x) = (splitLF x).map (fun p => (a ++ p.1, p.2)) := by
+  intro a
+  induction a with
+  | nil =>
+    intro x _
+    simp only [List.nil_append]
+    cases splitLF x <;> simp
+  | cons b t ih =>
+    intro x h
+    simp only [List.cons_append, splitLF] at h ⊢
+    by_cases hb : b.toNat = 10
+    · simp [hb] at h
+    · simp only [hb, if_false] at h ⊢
+      cases hs : splitLF t with
+      | some q => simp [hs] at h
+      | none =>
+        rw [ih x hs]
+        cases splitLF x <;> simp
+
+theorem readLine_full (buf x : Bytes) (hn : splitLF buf = none) (hl : buf.length ≥ bufSize) :
+    readLine (buf ++ x) = .error .toolong := by
+  unfold readLine
+  rw [splitLF_append_none buf x hn]
+  cases hx : splitLF x with
+  | none =>
+    simp only [Option.map_none]
+    have : (buf ++ x).length ≥ bufSize := by simp; omega
+    rw [if_pos this]
+  | some q =>
+    simp only [Option.map_some]
+    have : (buf ++ q.1).length + 1 ≥ maxLineLength := by
+      simp [maxLineLength]; simp [bufSize] at hl; omega
+    rw [if_pos this]
+
+def lineNorm : Except Err (Bytes × Bytes × List Bytes) → Except Err (Bytes × Bytes)
+  | .error e => .error e
+  | .ok (l, b, s) => .ok (l, b ++ s.flatten)
+
+theorem readLineSeg_norm : ∀ (segs : List Bytes) (buf : Bytes),
+    lineNorm (readLineSeg buf segs) = readLine (buf ++ segs.flatten) := by
+  intro segs
+  induction segs with
+  | nil =>
+    intro buf
+    simp only [readLineSeg, List.flatten_nil, List.append_nil]
+    cases readLine buf with
+    | error e => rfl
+    | ok q => obtain ⟨l, r⟩ := q; simp [lineNorm]
+  | cons g rest ih =>
+    intro buf
+    simp only [readLineSeg, List.flatten_cons]
+    cases hs : splitLF buf with
+    | some q =>
+      obtain ⟨l, r⟩ := q
+      simp only []
+      unfold readLine
+      rw [splitLF_append_some buf l r _ hs]
+      simp only []
+      split <;> simp [lineNorm]
+    | none =>
+      simp only []
+      by_cases hl : buf.length ≥ bufSize
+      · simp only [hl, if_true, lineNorm]
+        exact (readLine_full buf _ hs hl).symm
+      · simp only [hl, if_false]
+        rw [ih (buf ++ g), List.append_assoc]
+
+theorem takeSeg_norm : ∀ (segs : List Bytes) (n : Nat) (buf : Bytes),
+    (takeSeg n buf segs).1 = (buf ++ segs.flatten).take n ∧
+    (takeSeg n buf segs).2.1 ++ (takeSeg n buf segs).2.2.flatten = (buf ++ segs.flatten).drop n := by
+  intro segs
+  induction segs with
+  | nil => intro n buf; simp [takeSeg]
+  | cons g rest ih =>
+    intro n buf
+    simp only [takeSeg, List.flatten_cons]
+    by_cases h : n ≤ buf.length
+    · simp only [h, if_true, List.flatten_cons]
+      constructor
+      · rw [List.take_append_of_le_length h]
+      · rw [List.drop_append_of_le_length h]
+    · simp only [h, if_false]
+      obtain ⟨i1, i2⟩ := ih (n - buf.length) g
+      have k1 : ∀ y : Bytes, (buf ++ y).take n = buf ++ y.take (n - buf.length) := by
+        intro y; rw [List.take_append, List.take_of_length_le (by omega)]
+      have k2 : ∀ y : Bytes, (buf ++ y).drop n = y.drop (n - buf.length) := by
+        intro y; rw [List.drop_append, List.drop_of_length_le (by omega)]; rfl
+      constructor
+      · rw [i1, k1]
+      · rw [i2, k2]
+
+theorem decodeSegAux_eq : ∀ (fuel : Nat) (buf : Bytes) (segs : List Bytes),
+    (decodeSegAux fuel buf segs).toRes = decodeAux fuel (buf ++ segs.flatten) := by
+  intro fuel
+  induction fuel with
+  | zero => intro buf segs; rfl
+  | succ fuel ih =>
+    intro buf segs
+    simp only [decodeSegAux, decodeAux]
+    have hline := readLineSeg_norm segs buf
+    cases hrs : readLineSeg buf segs with
+    | error e =>
+      rw [hrs] at hline
+      simp only [lineNorm] at hline
+      rw [← hline]
+      rfl
+    | ok q =>
+      obtain ⟨line, b1, s1⟩ := q
+      rw [hrs] at hline
+      simp only [lineNorm] at hline
+      rw [← hline]
+      simp only []
+      cases hp : parseHexUint line with
+      | error e => rfl
+      | ok n =>
+        simp only []
+        by_cases hz : n.toNat = 0
+        · simp [hz, ResS.toRes]
+        · simp only [hz, if_false]
+          obtain ⟨d1, d2⟩ := takeSeg_norm s1 n.toNat b1
+          generalize hr : b1 ++ s1.flatten = r at *
+          have hlen : (List.take n.toNat r).length < n.toNat ↔ r.length < n.toNat := by
+            rw [List.length_take]; omega
+          simp only [d1]
+          by_cases hlt : r.length < n.toNat
+          · have := hlen.mpr hlt
+            simp only [this, hlt, if_true]
+            rw [List.take_of_length_le (by omega)]
+            rfl
+          · have hn : ¬ (List.take n.toNat r).length < n.toNat := fun h => hlt (hlen.mp h)
+            simp only [hn, hlt, if_false]
+            obtain ⟨t1, t2⟩ := takeSeg_norm (takeSeg n.toNat b1 s1).2.2 2 (takeSeg n.toNat b1 s1).2.1
+            rw [d2] at t1 t2
+            cases hd : r.drop n.toNat with
+            | nil =>
+              rw [hd] at t1
+              simp only [t1]; rfl
+            | cons a t =>
+              cases t with
+              | nil =>
+                rw [hd] at t1
+                simp only [t1]; rfl
+              | cons b r' =>
+                rw [hd] at t1 t2
+                have e1 : (takeSeg 2 (takeSeg n.toNat b1 s1).2.1 (takeSeg n.toNat b1 s1).2.2).1 = [a, b] := by
+                  rw [t1]; rfl
+                have e2 : (takeSeg 2 (takeSeg n.toNat b1 s1).2.1 (takeSeg n.toNat b1 s1).2.2).2.1 ++
+                    (takeSeg 2 (takeSeg n.toNat b1 s1).2.1 (takeSeg n.toNat b1 s1).2.2).2.2.flatten = r' := by
+                  rw [t2]; rfl
+                simp only [e1]
+                by_cases hc : a.toNat = 13 ∧ b.toNat = 10
+                · simp only [hc, and_self, if_true]
+                  have hx := ih (takeSeg 2 (takeSeg n.toNat b1 s1).2.1 (takeSeg n.toNat b1 s1).2.2).2.1
+                    (takeSeg 2 (takeSeg n.toNat b1 s1).2.1 (takeSeg n.toNat b1 s1).2.2).2.2
+                  rw [e2] at hx
+                  rw [← hx]
+                  rfl
+                · simp only [hc, if_false]
+                  rfl
+
 end BfeVerif.C23
